@@ -6,3 +6,6 @@ CONSTANTS
  Fixes <- MCFixes
  Alphabet <- MCAlphabet
  K = 3
+INVARIANT C10_Barrier
+INVARIANT C10_FailureStops
+INVARIANT C06_NoLostCompletion
